@@ -80,13 +80,18 @@ class DomainSession:
                                                          op["lr"], op["rr"])
             if not left < right:
                 return False
-            # bounds within rounding distance of a sample would make the selected run ambiguous
+            # the model and the object's observable abscissae may differ in the last bits; if that changes which
+            # samples the bounds select, the bounds sit within rounding distance of a sample: ambiguous, not issued
+            ax = [float(v) for v in self.w.get()[0]]
+            if len(ax) != len(self.mx):
+                return True
+            a2, b2, l2, r2 = wo.model_truncate_bounds(ax, op["left"], op["right"], op["lr"], op["rr"])
+            if (a2, b2) != (a, b) or not l2 < r2:
+                return False
             tol = 64 * np.spacing(float(np.max(np.abs(self.mx)))) * max(1.0, self.amp_x)
-            if np.min(np.abs(self.mx - left)) < tol and not np.any(self.mx == left):
+            if op["lr"] and np.min(np.abs(self.mx - left)) < tol:
                 return False
-            if np.min(np.abs(self.mx - right)) < tol and not np.any(self.mx == right):
-                return False
-            if (op["lr"] or op["rr"]) and (np.min(np.abs(self.mx - left)) < tol or np.min(np.abs(self.mx - right)) < tol):
+            if op["rr"] and np.min(np.abs(self.mx - right)) < tol:
                 return False
         return True
 
@@ -238,8 +243,10 @@ def replay_body(ctx, case):
     for op in case["ops"]:
         if op["op"] == "terminal":
             sess.terminal(dict(op))
-        else:
+        elif sess.admissible(op):
             sess.do(op)
+        else:
+            ctx.count("inadmissible-op-in-trace-skipped")
     cls, nt = classify(case)
     ctx.record(case, cls[:40], nt)
 
@@ -301,7 +308,9 @@ def make_machine(ctx):
 
         @rule(data=st.data())
         def truncate_value(self, data):
-            x = self.sess.mx
+            x = np.asarray(self.sess.w.get()[0], dtype=float)
+            if len(x) != len(self.sess.mx):
+                x = self.sess.mx
             L = len(x)
             mode = data.draw(st.sampled_from(["grid", "offgrid", "ratio", "mixed", "outside"]))
             i = data.draw(st.integers(0, max(0, L - 4)))
